@@ -2096,6 +2096,61 @@ def gen_resolver():
     out.append("/-- (function, its first loop starts with `if ... a.multimapper ...: continue`) -/")
     out.append("def multimapper_guards : List (String × Bool) := [%s]\n"
                % ", ".join('("%s", %s)' % (k, "true" if v else "false") for k, v in guards))
+    # 7. the pickle boundary of BasicReadAssignment (results of worker processes under --high_memory --threads > 1):
+    #    the tuple __getstate__ emits and the slots __setstate__ reads
+    ia = parse("src/isoform_assignment.py")
+    gs = find_def(ia, "__getstate__", "BasicReadAssignment")
+    grets = [n for n in ast.walk(gs) if isinstance(n, ast.Return)]
+    if len(grets) != 1 or not isinstance(grets[0].value, ast.Tuple):
+        raise TranslationError("BasicReadAssignment.__getstate__: expected one `return (...)` tuple")
+
+    def _self_attr(e):
+        return e.attr if (isinstance(e, ast.Attribute) and isinstance(e.value, ast.Name) and e.value.id == "self") else None
+
+    glayout = []
+    for e in grets[0].value.elts:
+        if _self_attr(e):
+            glayout.append(e.attr)
+        elif isinstance(e, ast.Attribute) and e.attr == "value" and _self_attr(e.value):
+            glayout.append(e.value.attr)                       # enum member stored by value
+        elif (isinstance(e, ast.Subscript) and _self_attr(e.value) and isinstance(e.slice, ast.Constant)
+              and isinstance(e.slice.value, int)):
+            glayout.append("%s.%d" % (e.value.attr, e.slice.value))
+        else:
+            raise TranslationError("BasicReadAssignment.__getstate__: unsupported tuple element")
+    ss = find_def(ia, "__setstate__", "BasicReadAssignment")
+    if len(ss.args.args) != 2:
+        raise TranslationError("BasicReadAssignment.__setstate__: expected (self, state)")
+    stname = ss.args.args[1].arg
+
+    def _slot(e):
+        if isinstance(e, ast.Call) and len(e.args) == 1 and not e.keywords and isinstance(e.func, ast.Name) \
+                and e.func.id == "ReadAssignmentType":
+            e = e.args[0]                                       # enum rebuilt from its value
+        if (isinstance(e, ast.Subscript) and isinstance(e.value, ast.Name) and e.value.id == stname
+                and isinstance(e.slice, ast.Constant) and isinstance(e.slice.value, int)):
+            return e.slice.value
+        raise TranslationError("BasicReadAssignment.__setstate__: unsupported right-hand side")
+
+    slayout = []
+    for n in ss.body:
+        if isinstance(n, ast.Expr) and isinstance(n.value, ast.Constant):
+            continue
+        if not (isinstance(n, ast.Assign) and len(n.targets) == 1 and _self_attr(n.targets[0])):
+            raise TranslationError("BasicReadAssignment.__setstate__: unsupported statement")
+        tgt = n.targets[0].attr
+        if isinstance(n.value, ast.Tuple):
+            for k, e in enumerate(n.value.elts):
+                slayout.append(("%s.%d" % (tgt, k), _slot(e)))
+        else:
+            slayout.append((tgt, _slot(n.value)))
+    info["basic_getstate_layout"] = glayout
+    info["basic_setstate_layout"] = slayout
+    out.append("/-- the tuple `BasicReadAssignment.__getstate__` returns (enum members by value, `x.k` = `self.x[k]`) -/")
+    out.append("def basic_getstate_layout : List String := [%s]" % ", ".join('"%s"' % f for f in glayout))
+    out.append("/-- `BasicReadAssignment.__setstate__`: (field, slot of the state tuple it is read from) -/")
+    out.append("def basic_setstate_layout : List (String × Nat) := [%s]\n"
+               % ", ".join('("%s", %d)' % (f, k) for f, k in slayout))
     out.append("end IsoVerif.Gen\n")
     return "\n".join(out), info
 
